@@ -112,7 +112,9 @@ func (state *inflate) setupDynamicHeader() error {
 	if err != nil {
 		return err
 	}
-	state.litLenTable.genForLitLen(ctx, multisym)
+	if !state.litLenTable.genForLitLen(ctx, multisym) {
+		return errInvalidBlock
+	}
 
 	state.phase = phaseHeaderDecoded
 	return nil
